@@ -668,14 +668,24 @@ pub fn epserde_derive(input: TokenStream) -> TokenStream {
                             }
                         });
                     let ident = variant.ident.clone();
+                    // Bind the fields to fresh variables, as for tuple
+                    // variants: a binding named like the field would shadow
+                    // `backend` (for a field with that name), or be taken for
+                    // a constant or unit/tuple variant in scope (`None`, ...).
+                    let var_fields_vars = (0..var_fields_names.len())
+                        .map(|field_idx| {
+                            syn::Ident::new(&format!("v{}", field_idx), proc_macro2::Span::call_site())
+                                .to_token_stream()
+                        })
+                        .collect::<Vec<_>>();
                     variants.push(quote! {
-                        #ident{ #( #var_fields_names, )* }
+                        #ident{ #( #var_fields_names: #var_fields_vars, )* }
                     });
                     fields_types.extend(var_fields_types.clone());
                     variant_ser.push(quote! {
                         backend.write("tag", &#variant_id)?;
                         #(
-                            backend.write(stringify!(#var_fields_names), #var_fields_names)?;
+                            backend.write(stringify!(#var_fields_names), #var_fields_vars)?;
                         )*
                     });
                     variant_full_des.push(quote! {
